@@ -224,6 +224,11 @@ impl<S: Read + Write> Client<S> {
         Ok(Client::new(link))
     }
 
+    /// Bytes already received that the next read will not wait for
+    pub fn pending(&self) -> usize {
+        self.transport.pending()
+    }
+
     /// Shutdown current connection
     pub fn shutdown(&mut self) -> RdpResult<()> {
         self.transport.shutdown()
